@@ -18,6 +18,34 @@ LEVEL = "proof"
 NREG = 5
 
 
+_FP = {}
+
+
+def canon(x, widening, cx=None):
+    """identity of an alternative for the model rows: its values on three fixed concrete register states when they are all
+    constants (one expression is often listed in differently simplified forms), its rendering otherwise"""
+    if cx is not None:
+        if "states" not in _FP:
+            E = cx.E
+            rr = random.Random(1234)
+            sts = []
+            for _ in range(3):
+                st = cx.mapper()
+                for i in range(NREG):
+                    st[E.reg("g%d" % i, 32)] = E.cst(rr.getrandbits(32), 32)
+                for nm in ("sp", "bp"):
+                    st[E.reg(nm, 32)] = E.cst(rr.getrandbits(32), 32)
+                sts.append(st)
+            _FP["states"] = sts
+        try:
+            vals = [st(x) for st in _FP["states"]]
+            if all(v._is_cst for v in vals):
+                return "fp:" + ",".join("%x/%d" % (v.v & ((1 << v.size) - 1), v.size) for v in vals)
+        except Exception:
+            pass
+    return str(x)
+
+
 def alts_of(v):
     if v._is_top and not v._is_vec:
         return None          # unknown
@@ -56,13 +84,55 @@ def gen_map(cx, rng, regs, flag, ptrs, with_cond):
                 # a vector-valued pointer: the store goes to one of several addresses
                 p = E.vec([ptrs[0], ptrs[1]])
                 d = rng.choice([0, 4, -8])
-            m[E.mem(p, 32, disp=d)] = m(v)
-            desc.append(("mem", str(p), d, str(v)))
+            sz = 32
+            if not p._is_vec and rng.random() < 0.4:
+                # narrower stores at neighbouring displacements: overlapping stores through different pointer expressions,
+                # and locations stored to more than once
+                sz = rng.choice([8, 16])
+                d = rng.choice([0, 1, 2, 4, 5])
+                v = v[0:sz]
+            m[E.mem(p, sz, disp=d)] = m(v)
+            desc.append(("mem", str(p), d, str(v), sz))
     if with_cond:
-        c = (rng.choice(regs) == E.cst(rng.choice([0, 1, 7]), 32))
+        r = rng.choice(regs)
+        k = E.cst(rng.choice([0, 1, 7]), 32)
+        kind = rng.choice(["==", "==", "!=", "!=", "<", "flag"])
+        c = {"==": lambda: r == k, "!=": lambda: r != k, "<": lambda: E.oper("<", r, E.cst(9, 32)),
+             "flag": lambda: (flag == E.cst(rng.getrandbits(1), 1)) if rng.random() < 0.5 else (flag != E.cst(rng.getrandbits(1), 1))}[kind]()
         m.conds = [c]
         desc.append(("cond", str(c)))
     return m, desc
+
+
+def sat_state(cx, rng, regs, ptrs, flag, conds):
+    """a concrete state (mapper) in which every path condition holds, or None"""
+    E = cx.E
+    for _ in range(6):
+        env = {r: rng.getrandbits(32) for r in regs + ptrs}
+        fl = rng.getrandbits(1)
+        for c in conds:
+            try:
+                if c._is_eqn and c.op.symbol == "==" and c.l._is_reg and c.r._is_cst:
+                    if c.l.size == 1:
+                        fl = c.r.v
+                    else:
+                        env[c.l] = c.r.v
+                elif c._is_eqn and c.op.symbol == "!=" and c.l._is_reg and c.r._is_cst and c.l.size == 1:
+                    fl = 1 - c.r.v
+                elif c._is_eqn and c.op.symbol == "<" and c.l._is_reg:
+                    env[c.l] = rng.randrange(0, 9)
+            except Exception:
+                pass
+        s0 = cx.mapper()
+        for r, v in env.items():
+            s0[r] = E.cst(v, 32)
+        s0[flag] = E.cst(fl, 1)
+        try:
+            if all(s0(c)._is_cst and s0(c).v == 1 for c in conds):
+                return s0, dict({str(k): hex(x) for k, x in env.items()}, fl=fl)
+        except Exception:
+            return None
+    return None
 
 
 def check(run):
@@ -80,6 +150,7 @@ def check(run):
     flag = is_reg_flags(E.reg("fl", 1))
     ptrs = [E.reg("sp", 32), E.reg("bp", 32)]
     rows = []
+    rows_meta = []
     finds = {}
     for it in range(1200 if quick else 25000):
         widening = rng.random() < 0.3
@@ -103,10 +174,12 @@ def check(run):
         # the maps as merge sees them (after assume)
         a1, a2 = m1.assume(m1.conds), m2.assume(m2.conds)
         locs = []
+        sizes = {}
         for mp in (a1, a2):
             for loc, v in mp:
                 if not any(str(loc) == str(l) for l in locs):
                     locs.append(loc)
+                sizes.setdefault(str(loc), set()).add(v.size)
         env = {r: rng.getrandbits(32) for r in regs + ptrs}
         s0 = cx.mapper()
         for r, v in env.items():
@@ -120,8 +193,12 @@ def check(run):
                 # component locations of a store through a vector-valued pointer
                 for l in loc.base.l:
                     keys.append((loc, E.mem(l, 32, loc.seg, loc.disp)))
+            elif loc._is_ptr:
+                # read back at the width(s) stored there
+                for sz in sorted(sizes[str(loc)]):
+                    keys.append((loc, E.mem(loc, sz)))
             else:
-                keys.append((loc, E.mem(loc, 32) if loc._is_ptr else loc))
+                keys.append((loc, loc))
         seen_keys = set()
         for loc, key in keys:
             if str(key) in seen_keys:
@@ -137,6 +214,27 @@ def check(run):
                 disagree = True
             isflag = loc._is_reg and bool(loc.etype & E.regtype.FLAGS)
             ra = alts_of(r)
+            piecewise = bool(r._is_cmp and any(p._is_vec or p._is_top for p in r.parts.values()))
+            if piecewise and not isflag:
+                # overlapping stores of different widths: the merged value lists its alternatives piece by piece; every
+                # piece must cover the corresponding bits of each map's value on a concrete state
+                for which, v in (("m1", v1), ("m2", v2)):
+                    try:
+                        c = s0(v)
+                        if not c._is_cst:
+                            continue
+                        for (lo, hi), part in r.parts.items():
+                            pa = alts_of(part)
+                            if pa is None or pa[1]:
+                                continue
+                            cands = [s0(x) for x in pa[0]]
+                            if all(x._is_cst for x in cands) and ((c.v >> lo) & ((1 << (hi - lo)) - 1)) not in [x.v for x in cands]:
+                                finds.setdefault("evaluated-value-not-a-candidate|" + which,
+                                                 {"m1": d1, "m2": d2, "loc": str(loc), "merged": str(r), "value": str(v), "piece": [lo, hi],
+                                                  "state": {str(k): hex(x) for k, x in env.items()}})
+                    except Exception:
+                        pass
+                continue
             if isflag:
                 if ra is not None:
                     finds.setdefault("flag-not-top", {"m1": d1, "m2": d2, "loc": str(loc), "merged": str(r)})
@@ -145,11 +243,18 @@ def check(run):
                 continue
             rl, unknown = ra
             strs = {str(x) for x in rl}
+            for x in rl:
+                # an alternative may be listed in an unsimplified but identical form, e.g. (a^b)[16:32] for a[16:32]^b[16:32]
+                try:
+                    strs.add(str(x.simplify()))
+                    strs.add(str(x.simplify(bitslice=True)))
+                except Exception:
+                    pass
             for which, v in (("m1", v1), ("m2", v2)):
                 va = alts_of(v)
                 if va is None:
                     continue
-                missing = [str(x) for x in va[0] if str(x) not in strs]
+                missing = [str(x) for x in va[0] if str(x) not in strs and str(x.simplify()) not in strs and str(x.simplify(bitslice=True)) not in strs]
                 if missing and not unknown:
                     finds.setdefault("alternative-missing|" + which, {"m1": d1, "m2": d2, "loc": str(loc), "merged": str(r), "value": str(v),
                                                                     "widening": widening, "threshold": thr})
@@ -163,8 +268,37 @@ def check(run):
                 except Exception:
                     pass
             # model row: alternatives as atom ids (by rendering)
-            if not any(d[0] == "mem" and "[" in d[1] for d in d1 + d2):        # joins under vector-pointer stores: membership oracle only
+            narrow = any(d[0] == "mem" and d[4] != 32 for d in d1 + d2)
+            if not narrow and not any(d[0] == "mem" and "[" in d[1] for d in d1 + d2):        # joins under vector-pointer or overlapping narrow stores: membership oracles only
                 case_rows.append((str(loc), v1, v2, r, widening, thr))
+        # ---- the maps as written (before assume), each on a state that satisfies its own path conditions: the value
+        # each location has there is among the merged map's candidates on that state
+        for which, mo, dd in (("m1", m1, d1), ("m2", m2, d2)):
+            st = sat_state(cx, rng, regs, ptrs, flag, mo.conds)
+            if st is None:
+                continue
+            sx, shown = st
+            okeys = []
+            for loc, v in mo:
+                if loc._is_ptr and loc.base._is_vec:
+                    continue
+                okeys.append(E.mem(loc, v.size) if loc._is_ptr else loc)
+            for key in okeys:
+                if key._is_reg and bool(key.etype & E.regtype.FLAGS):
+                    continue
+                try:
+                    c = sx(mo[key])
+                    r = mm[key]
+                    ra = alts_of(r)
+                    if ra is None or ra[1] or not c._is_cst:
+                        continue
+                    cands = [sx(x) for x in ra[0]]
+                except Exception:
+                    continue
+                if all(x._is_cst for x in cands) and c.v not in [x.v for x in cands]:
+                    finds.setdefault("original-map-value-not-a-candidate|" + which,
+                                     {"m1": d1, "m2": d2, "loc": str(key), "merged": str(r), "value_in_map": str(mo[key]), "evaluates_to": hex(c.v),
+                                      "candidates": [hex(x.v) for x in cands], "state": shown, "widening": widening, "threshold": thr})
         run.count((repr(d1), repr(d2), widening, thr), disagree)
         run.sample({"m1": d1, "m2": d2, "widening": widening, "threshold": thr}, 3)
         if len(rows) < (900 if quick else 9000):
@@ -172,15 +306,29 @@ def check(run):
                 if th != 0:
                     continue        # the complexity measure of atoms is not modelled: threshold cases are checked by the oracle only
                 ids = {}
-                def val(v):
+                fps = {}
+                def val(v, observed=False):
                     a = alts_of(v)
                     if a is None:
                         return "Top"
-                    l = clist([str(ids.setdefault(str(x), len(ids))) for x in a[0]])
+                    out = []
+                    for x in a[0]:
+                        sx = str(x)
+                        if sx not in ids:
+                            fp = canon(x, wd, cx)
+                            if observed and fp.startswith("fp:") and fp in fps:
+                                # an operand alternative listed by merge in another (equal-valued) simplified form
+                                ids[sx] = fps[fp]
+                            else:
+                                ids[sx] = len(set(ids.values()))
+                                fps.setdefault(fp, ids[sx])
+                        out.append(str(ids[sx]))
+                    l = clist(out)
                     if v._is_vec:
                         return ("VecW %s" if a[1] else "Vec %s") % l
                     return "Atom %s" % l.strip("[]")
-                rows.append("(%s, %s, %s, %s)" % (val(v1), val(v2), "true" if wd else "false", val(r)))
+                rows.append("(%s, %s, %s, %s)" % (val(v1), val(v2), "true" if wd else "false", val(r, True)))
+                rows_meta.append({"m1": d1, "m2": d2, "loc": loc, "v1": str(v1), "v2": str(v2), "merged": str(r), "widening": wd})
     for k, v in sorted(finds.items()):
         run.violation(k, "merge of two maps: %s" % k, v)
     shards = [rows[i:i + 500] for i in range(0, len(rows), 500)]
@@ -197,7 +345,7 @@ def check(run):
         n_ok += len(sh)
         for k in lists[0][:3]:
             run.violation("model-impl-correspondence|join", "vec([v1,v2]).simplify differs from the model's join",
-                          {"theorem_or_correspondence": "Amoco.C19.Corr.check_mg", "case(v1,v2,widening,observed)": sh[k]}, found_input=False)
+                          dict(rows_meta[i * 500 + k], **{"theorem_or_correspondence": "Amoco.C19.Corr.check_mg", "case(v1,v2,widening,observed)": sh[k]}), found_input=False)
     run.cov["joins_in_coq"] = n_ok
     run.cov["traces_validated_against_impl"] = n_ok
     run.cov["trusted_base"] += ["harness/c19.py map generator, alternative extraction (by rendering, as amoco compares expressions)"]
